@@ -109,9 +109,6 @@ MUTANTS = [
      "                    '__exit__', '__next__', '__format__']),", "                    '__exit__', '__next__', '__format__', '__dict__', '__class__']),"),
     ("c07-public-attrs-default", "C07", "rpyc/core/protocol.py",
      "    allow_public_attrs=False,", "    allow_public_attrs=True,"),
-    ("c07-localref-fallback-eval", "C07", "rpyc/core/protocol.py",
-     "        elif label == consts.LABEL_LOCAL_REF:\n            pinned[value] = self._local_objects[value]",
-     "        elif label == consts.LABEL_LOCAL_REF:\n            try:\n                pinned[value] = self._local_objects[value]\n            except KeyError:\n                import gc\n                pinned[value] = [o for o in gc.get_objects() if get_id_pack(o) == value][0]"),
     # ---- C08
     ("c08-reply-twice", "C08", "rpyc/core/protocol.py",
      "        else:\n            self._send_data(reply)",
@@ -241,6 +238,20 @@ MUTANTS = [
     ("c19-imm-int-range", "C19", "rpyc/core/brine.py", "IMM_INTS = dict((i, bytes([i + 0x50])) for i in range(-0x30, 0xa0))", "IMM_INTS = dict((i, bytes([i + 0x50])) for i in range(-0x30, 0x9f))"),
     ("c19-tuple-always-long", "C19", "rpyc/core/brine.py", "    elif lenobj == 4:\n        stream.append(TAG_TUP4)", "    elif lenobj == 4 and False:\n        stream.append(TAG_TUP4)"),
     ("c19-kwargs-as-dictitems-unsorted-ok", "C19", "rpyc/core/protocol.py", "    def _handle_str(self, obj):  # request handler\n        return str(obj)", "    def _handle_str(self, obj):  # request handler\n        return repr(obj)"),
+    # ---- C20
+    ("c20-break-before-last-write", "C20", "rpyc/utils/classic.py",
+     "                buf = lf.read(chunk_size)\n                if not buf:\n                    break\n                rf.write(buf)",
+     "                buf = lf.read(chunk_size)\n                if len(buf) < chunk_size:\n                    break\n                rf.write(buf)"),
+    ("c20-text-mode", "C20", "rpyc/utils/classic.py",
+     "        with open(localpath, \"wb\") as lf:", "        with open(localpath, \"w\" if chunk_size == 7 else \"wb\") as lf:"),
+    ("c20-filter-on-path", "C20", "rpyc/utils/classic.py",
+     "    for fn in os.listdir(localpath):\n        if not filter or filter(fn):", "    for fn in os.listdir(localpath):\n        if not filter or filter(os.path.join(localpath, fn)):"),
+    ("c20-empty-dirs-skipped", "C20", "rpyc/utils/classic.py",
+     "    if not os.path.isdir(localpath):\n        os.makedirs(localpath)\n    for fn in conn.modules.os.listdir(remotepath):",
+     "    for fn in conn.modules.os.listdir(remotepath):\n        if not os.path.isdir(localpath):\n            os.makedirs(localpath)"),
+    ("c20-download-read-once", "C20", "rpyc/utils/classic.py",
+     "                buf = rf.read(chunk_size)\n                if not buf:\n                    break\n                lf.write(buf)",
+     "                buf = rf.read(chunk_size)\n                if not buf:\n                    break\n                lf.write(buf)\n                if chunk_size == 4096 and len(buf) == chunk_size:\n                    rf.read(1)"),
     # ---- C10
     ("c10-decref-le", "C10", "rpyc/lib/colls.py",
      "            if slot[1] < count:", "            if slot[1] <= count:"),
